@@ -139,13 +139,13 @@ func init() {
 
 func init() {
 	prop("C13", "C13-R8")
-	prop("C09", "C13-R8")
-	prop("C01", "C13-R8")
-}
-
-func init() {
-	prop("C07", "C13-R8")
-	prop("C17", "C13-R8")
+	// scoped copies: a property is alarmed only by the layer it depends on
+	prop("C09", "C13-R8/heap")
+	prop("C01", "C13-R8/heap")
+	prop("C10", "C13-R8/heap") // catalog rows are rows of ordinary table heaps (seed C10/b)
+	prop("C09", "C13-R8/index")
+	prop("C07", "C13-R8/index")
+	prop("C17", "C13-R8/index")
 }
 
 func init() { prop("C04", "C07-R1") }
@@ -163,4 +163,9 @@ func init() {
 func init() {
 	prop("C17", "C17-R4/pins")
 	prop("C14", "C17-R4/pins")
+}
+
+func init() {
+	prop("C17", "C17-R5")
+	prop("C12", "C19-R1/txnid") // statements are isolated by transaction id: two statements with one id share locks (seed C12/a)
 }
